@@ -333,7 +333,7 @@ func (r *PropertyResult) Emit(p *Program, verifDir string, known *KnownFile, see
 		"seed":        seed,
 		"level":       "other",
 		"coverage": map[string]any{
-			"explanation":         "Static analysis of /repo's current source (go/packages type-checked syntax, go/cfg control-flow graphs, go/ssa value slices). Each rule enumerates its obligations from the code and decides each for ALL paths of the function(s) involved; the rules are structural necessary conditions of the property, not the behavioural property itself. Rules applied: " + strings.Join(ruleTexts, " || "),
+			"explanation":         "Static analysis of /repo's current source (go/packages type-checked syntax, go/cfg control-flow graphs, def-use slices over the typed AST). Each rule enumerates its obligations from the code and decides each for ALL paths of the function(s) involved; the rules are structural necessary conditions of the property, not the behavioural property itself. Rules applied: " + strings.Join(ruleTexts, " || "),
 			"obligations":         total,
 			"discharged":          counts[Discharged],
 			"violated":            counts[Violated],
@@ -345,16 +345,17 @@ func (r *PropertyResult) Emit(p *Program, verifDir string, known *KnownFile, see
 			"rule":                "obligations are enumerated per rule from anchors resolved through go/types objects (functions, fields, mutexes, sinks); one obligation = one construct (call site, field access, return, record type); non-trivial = its verdict needed a path, dominance, lockset or slice argument rather than mere presence",
 			"samples":             samples,
 			"rules":               r.RuleCounts,
+			"rule_docs":           r.RuleDocs,
 			"analysed":            analysed,
 			"notes":               r.Notes,
 			"checker_failures":    r.Failures,
 			"checker_cmd":         fmt.Sprintf("./bin/tfcheck -prop %s -tier %s -repo %s", r.Prop, r.Tier, p.Repo),
-			"trusted_base":        []string{"go/types", "go/cfg", "go/ssa (x/tools v0.50.0)", "Go channel / mutex semantics", "os.Rename atomic replace", "crypto/hmac.Equal constant time"},
+			"trusted_base":        []string{"go/types", "go/packages + go/cfg (x/tools v0.50.0)", "Go channel / mutex semantics", "os.Rename atomic replace", "crypto/hmac.Equal constant time"},
 			"exhaustive":          true,
 		},
 		"assumptions": []string{
 			"verdicts are about code shape on all paths; they are necessary conditions of the property (see DESIGN.md section 3 'Does not decide')",
-			"the Go type checker, go/cfg and go/ssa are correct; callees are resolved through type information",
+			"the Go type checker and go/cfg are correct; callees are resolved through type information",
 		},
 		"wall_s":     r.WallS + p.LoadS,
 		"violations": len(r.Unexpected),
